@@ -8,72 +8,72 @@ props = [json.loads(l) for l in open(os.path.join(ROOT, "properties.jsonl"))]
 # id -> (category, technique, level text, level note, design ref)
 CLAIMED = {
  "C01": ("exploration",
-         "rapid-generated builder programs rendered with Msg.WriteTo and read back by an independent MIME reader (model-based round trip: leaf list, nesting, boundaries, decoded bytes), cross-checked against net/mail + mime/multipart; plus exhaustive enumeration of all small shape tuples; one case in six is rendered after another message failed to render in the same process; caller-chosen boundaries for programs with one multipart level; thorough adds a native fuzz target over the rapid generator (rapid.MakeFuzz)",
+         "rapid-generated builder programs rendered with Msg.WriteTo and read back by an independent MIME reader (model-based round trip: leaf list, nesting, boundaries, decoded bytes), cross-checked against net/mail + mime/multipart; plus exhaustive enumeration of all small shape tuples; one case in six is rendered after another message failed to render in the same process; caller-chosen boundaries for programs with one multipart level; thorough adds a native fuzz target over the rapid generator (rapid.MakeFuzz); one case in six re-encodes a body part through Part.SetEncoding after the first render and renders again",
          "Generated-input search against a reference model of the expected leaves. All (parts 0..3 x embeds 0..3 x attachments 0..3 x 3 encodings x 3 content classes) shape tuples are enumerated completely; everything else (contents, per-leaf options, sources) is sampled, so absence of violations is statistical.",
          "The harness' own MIME reader is the oracle (disagreement with the stdlib readers is reported as a harness error, never as a violation). QP text is generated with CRLF/LF breaks only; caller-chosen boundaries only for programs with one multipart level (WithBoundary's documented domain).",
          "DESIGN.md section 3, C01"),
  "C02": ("exploration",
-         "rapid-generated hostile strings (CR/LF injection payloads with markers, NUL/control, invalid UTF-8, specials, encoded-word lookalikes, printf/template tokens, long words) fed to every text-accepting setter, plus the complete product of 22 setters x ~75 single hostile strings x 2 encoders x 4 shapes; oracle: strict RFC 5322 header-section scan (field multiset == model), RFC 2047 decode == string set, own address parser, leaf content unchanged; charset labels of encoded-words are interpreted (ISO-8859-1/US-ASCII), blank-free tokens up to 4000 characters; thorough adds a native fuzz target over the rapid generator; no bare CR or LF in any header section (what a lenient reader such as net/mail would take for a line end)",
+         "rapid-generated hostile strings (CR/LF injection payloads with markers, NUL/control, invalid UTF-8, specials, encoded-word lookalikes, printf/template tokens, long words) fed to every text-accepting setter, plus the complete product of 22 setters x ~75 single hostile strings x 2 encoders x 4 shapes; oracle: strict RFC 5322 header-section scan (field multiset == model), RFC 2047 decode == string set, own address parser, leaf content unchanged; charset labels of encoded-words are interpreted (ISO-8859-1/US-ASCII), blank-free tokens up to 4000 characters; thorough adds a native fuzz target over the rapid generator; no bare CR or LF in any header section (what a lenient reader such as net/mail would take for a line end); part descriptions also through Part.SetDescription on an existing part",
          "Generated-input search against a model of the expected header fields of every section. The setter x single-hostile-string product is enumerated completely; combinations are sampled.",
          "*Preformatted setters and header names are out of scope by the property's statement. Values that consist of printable ASCII and contain encoded-word syntax are a recorded known finding (ew-lookalike-verbatim) and are excluded by signature, counted in the evidence.",
          "DESIGN.md section 3, C02"),
  "C03": ("fault_enumeration",
-         "rapid-generated histories: batches of generated messages x injected render faults (producer failing before/inside/after its content, deleted attachment file) x an unsignable S/MIME key (render fails before the first byte) x transport faults (drop after k DATA bytes) x reply scripts; oracle: commit log of the reference server vs. the harness' own reference rendering, IsDelivered/HasSendError vs. the 2yz end-of-data replies actually sent; producer faults also inside the caller's io.ReadSeeker behind the library's own producer (failing read/rewind, io.EOF-flavoured errors); a retry act sends every undelivered message again once the fault is gone",
+         "rapid-generated histories: batches of generated messages x injected render faults (producer failing before/inside/after its content, deleted attachment file) x an unsignable S/MIME key (render fails before the first byte) x transport faults (drop after k DATA bytes) x reply scripts; oracle: commit log of the reference server vs. the harness' own reference rendering, IsDelivered/HasSendError vs. the 2yz end-of-data replies actually sent; producer faults also inside the caller's io.ReadSeeker behind the library's own producer (failing read/rewind, io.EOF-flavoured errors); a retry act sends every undelivered message again once the fault is gone; the caller's context cancelled at the 354; positive replies spread over three lines",
          "TestC03Enum enumerates, for batches of 1, 2 and 3 messages: every step id x {4yz, 5yz, drop}, every producer x {before, mid, after}, their product for the 3-batch, and a drop at every 40th content byte; everything else is sampled by rapid.",
          "The reference rendering is taken with Msg.WriteTo before the send (C11 checks that renders are repeatable); 8bit parts carry CRLF line breaks only; in-memory transport; watchdog time-outs are inconclusive.",
          "DESIGN.md section 3, C03"),
  "C04": ("fault_enumeration",
-         "reply-script fault injection against a strict reference SMTP server (own RFC 5321 parser + transaction automaton): exhaustive <= 1-fault (thorough: also 2-fault) scripts at every step id of the fault-free session per capability subset, every rejected MAIL/RCPT/DATA combined with a refused abandoning RSET, plus rapid-generated multi-fault scripts/configurations; oracle: automaton accepts the session, parameter forms, reply-tag attribution; batches with recipient-less messages; the judged connection as the second one of a Client that first met a server advertising everything; an impatient client facing one positive reply that arrives late",
+         "reply-script fault injection against a strict reference SMTP server (own RFC 5321 parser + transaction automaton): exhaustive <= 1-fault (thorough: also 2-fault) scripts at every step id of the fault-free session per capability subset, every rejected MAIL/RCPT/DATA combined with a refused abandoning RSET, plus rapid-generated multi-fault scripts/configurations; oracle: automaton accepts the session, parameter forms, reply-tag attribution; batches with recipient-less messages; the judged connection as the second one of a Client that first met a server advertising everything; an impatient client facing one positive reply that arrives late; messages whose rendering fails after DATA was accepted; multi-line positive and negative replies",
          "Every step id of the recorded fault-free dialogue is replaced by each of {4yz, 5yz, drop} for every capability subset (64 in thorough, 8 per seed in quick) x 2 client configurations: complete for <= 1 fault on those configurations; multi-fault scripts and other configurations are sampled by rapid.",
          "The reference server's strictness (Postfix-like) is the oracle; in-memory transport; pipelining is detected only when two commands arrive in one read. The SASL cancel line after a final AUTH reply is a recorded known finding.",
          "DESIGN.md section 3, C04"),
  "C05": ("exploration",
-         "rapid-constructed addresses (dot-atom and quoted-string local parts over specials, blanks, UTF-8, parameter lookalikes), HELO names, credentials and DSN options; oracle: own strict RFC 5321 command/path/esmtp-param parser on every line the reference server receives, parsed paths == the mailbox the generator constructed; NOTIFY combinations incl. the ones RFC 3461 forbids",
+         "rapid-constructed addresses (dot-atom and quoted-string local parts over specials, blanks, UTF-8, parameter lookalikes), HELO names, credentials and DSN options; oracle: own strict RFC 5321 command/path/esmtp-param parser on every line the reference server receives, parsed paths == the mailbox the generator constructed; NOTIFY combinations incl. the ones RFC 3461 forbids; RET values as a configuration file might hold them (blanks, line breaks, lower case)",
          "Generated-input search with a grammar-based oracle; the generator constructs addresses (no rejection sampling) and knows the expected mailbox without asking net/mail. Sampled, not exhaustive.",
          "A HELO name that is a single token but not a syntactically valid domain is not judged (not smuggling); UTF-8 local parts are accepted regardless of SMTPUTF8; an abandoned transaction (no DATA) counts as a refusal.",
          "DESIGN.md section 3, C05"),
  "C06": ("exploration",
-         "model-based testing: rapid-generated sequences of address-setting calls executed against Msg and against a reference model of the To/Cc/Bcc/From/EnvelopeFrom/ReplyTo lists, followed by render (own RFC 5322 reader, Bcc-token search in raw and decoded bytes) and send (MAIL/RCPT lines at the reference server); an intermediate render as an action, display names with runes strconv does not consider printable; thorough adds a native fuzz target over the rapid generator; a failed hand-over to a local sendmail command as an action; one case in six the server refuses the k-th RCPT",
+         "model-based testing: rapid-generated sequences of address-setting calls executed against Msg and against a reference model of the To/Cc/Bcc/From/EnvelopeFrom/ReplyTo lists, followed by render (own RFC 5322 reader, Bcc-token search in raw and decoded bytes) and send (MAIL/RCPT lines at the reference server); an intermediate render as an action, display names with runes strconv does not consider printable; thorough adds a native fuzz target over the rapid generator; a failed hand-over to a local sendmail command as an action; one case in six the server refuses the k-th RCPT; local parts that must be quoted; display names compared exactly",
          "Generated call histories against an explicit reference model; sampled by rapid.",
          "For *IgnoreInvalid the model only demands a subsequence of the valid inputs that contains every valid ASCII-named input (what happens to valid non-ASCII names is not fixed by the property) and follows the getter there.",
          "DESIGN.md section 3, C06"),
  "C07": ("fault_enumeration",
-         "exhaustive product of TLS policy x 13 auth types x host kind x server behaviour (STARTTLS advertised/refused/garbled, certificate valid/wrong-name/untrusted, garbage handshake, AUTH lists) over real TCP with the default dialers and the client's default tls.Config; oracle: byte-exact cleartext tap scanned for non-permitted commands and for every encoding of the per-case random credentials; plus 18 host names around the localhost rule over in-memory connections, plus implicit TLS with a fallback port (plain-text server on port 25); lifecycle cases: the policy established by setter sequences, and the judged call as the second connection of one Client; implicit TLS followed by a STARTTLS policy in any order; default-port cases (fallback port left behind by a port policy)",
+         "exhaustive product of TLS policy x 13 auth types x host kind x server behaviour (STARTTLS advertised/refused/garbled, certificate valid/wrong-name/untrusted, garbage handshake, AUTH lists) over real TCP with the default dialers and the client's default tls.Config; oracle: byte-exact cleartext tap scanned for non-permitted commands and for every encoding of the per-case random credentials; plus 18 host names around the localhost rule over in-memory connections, plus implicit TLS with a fallback port (plain-text server on port 25); lifecycle cases: the policy established by setter sequences, and the judged call as the second connection of one Client; implicit TLS followed by a STARTTLS policy in any order; default-port cases (fallback port left behind by a port policy); policy changed between two connections; a tls.Config without ServerName shared with a Client for another host",
          "The configuration product is enumerated completely in both tiers (quick: 2 advertised AUTH lists, thorough: 7); credentials are fresh random tokens per case.",
          "Real TCP on 127.0.0.1/127.0.0.2; the harness CA is installed as the only system root through SSL_CERT_FILE so that the client's default verification is what is tested; server behaviours are the enumerated ones, not arbitrary byte streams.",
          "DESIGN.md section 3, C07"),
  "C08": ("exploration",
-         "rapid-generated message programs x key types x issuer hashes (SHA-256/384/512 on the signer certificate) x chain shapes x signing APIs, each rendered twice (optionally after a failed render, optionally with an alternative added in between); oracle: own MIME reader + own CMS SignedData verifier (encoding/asn1 + crypto/*): structure, SHA-256 of the first part exactly as emitted == message-digest attribute, DER SET order, signature under the carried signer certificate, intermediate carried iff given, leaves of the signed entity == model, identical signed entity across renders; caller-chosen boundaries (one multipart level); a concurrent variant (2..8 goroutines sign and render fresh messages with one shared key pair at the same time); a middleware that rewrites the first body part or the subject on every render; full-chain key pairs (leaf + issuing CA + root)",
+         "rapid-generated message programs x key types x issuer hashes (SHA-256/384/512 on the signer certificate) x chain shapes x signing APIs, each rendered twice (optionally after a failed render, optionally with an alternative added in between); oracle: own MIME reader + own CMS SignedData verifier (encoding/asn1 + crypto/*): structure, SHA-256 of the first part exactly as emitted == message-digest attribute, DER SET order, signature under the carried signer certificate, intermediate carried iff given, leaves of the signed entity == model, identical signed entity across renders; caller-chosen boundaries (one multipart level); a concurrent variant (2..8 goroutines sign and render fresh messages with one shared key pair at the same time); a middleware that rewrites the first body part or the subject on every render; full-chain key pairs (leaf + issuing CA + root); signer and issuing CA with equal serial numbers",
          "Generated-input search with an independent verifier as oracle; sampled.",
          "The CMS verifier is the harness' own (validated by the cases that verify, and in the thorough tier by a differential sample: one accepted render in four is also handed to `openssl smime -verify -noverify` when an openssl binary exists - which first has to reject a tampered copy); certificate path validation to a trust anchor is not part of the property; contents are in canonical CRLF form.",
          "DESIGN.md section 3, C08"),
  "C09": ("exploration",
-         "grammar-based EML generator + structure-aware mutations + renderings of generated messages + arbitrary bytes, under six reader behaviours (rapid); repository fixtures and a hostile-constant corpus under every reader behaviour; thorough adds native coverage-guided fuzzing (go test -fuzz) with the oracle inside the target; oracle: returns without panic within a generous wall-clock bound; dictionary with RFC 822 comments, stray parentheses, address groups, RFC 2231 parameters",
+         "grammar-based EML generator + structure-aware mutations + renderings of generated messages + arbitrary bytes, under six reader behaviours (rapid); repository fixtures and a hostile-constant corpus under every reader behaviour; thorough adds native coverage-guided fuzzing (go test -fuzz) with the oracle inside the target; oracle: returns without panic within a generous wall-clock bound; dictionary with RFC 822 comments, stray parentheses, address groups, RFC 2231 parameters; unlisted transfer encodings; readers that fail persistently with a time-out error",
          "Generated-input search for crashes and hangs; sampled. Native fuzzing cannot be pinned to a seed: its campaigns are evidence of effort, its crashers are the reproducible artefact.",
          "Inputs up to 64 KiB; termination is observed (10 s bound, three orders of magnitude above normal, must repeat three times in a row), not proved.",
          "DESIGN.md section 3, C09"),
  "C10": ("exploration",
-         "round-trip property over rapid-generated message programs within the parser's feature set: build -> render -> EMLToMsgFromReader -> compare getters with the generator's model -> render again -> independent MIME reader compares leaves and checks header sections for duplicated fields; thorough adds a native fuzz target over the rapid generator",
+         "round-trip property over rapid-generated message programs within the parser's feature set: build -> render -> EMLToMsgFromReader -> compare getters with the generator's model -> render again -> independent MIME reader compares leaves and checks header sections for duplicated fields; thorough adds a native fuzz target over the rapid generator; text that begins with a byte order mark",
          "Generated-input search with a model/round-trip oracle; sampled.",
          "Subject and display names are compared exactly except for white space at their two ends; the parser's collapsing of a white-space run that the writer folded inside (net/textproto) is a recorded known finding (parser-collapses-ws-at-fold), a writer-side loss is not excused. A file's declared content type and chosen transfer encoding are not required to survive; descriptions and caller-chosen content-ids are outside the parser's feature set; 7bit/8bit contents are generated legal for those encodings.",
          "DESIGN.md section 3, C10"),
  "C11": ("exploration",
-         "rapid-generated message programs (one in five S/MIME-signed) x generated histories of render operations (WriteTo, Write, NewReader, UpdateReader incl. partly-read readers, WriteToFile, WriteToTempFile, Send to the reference server, failed renders by sink or producer fault); metamorphic oracle: every successful output is byte-identical to the first; producer faults also inside the caller's io.ReadSeeker behind the library's own producer; WriteToFile also onto an existing, longer file; thorough adds a native fuzz target over the rapid generator",
+         "rapid-generated message programs (one in five S/MIME-signed) x generated histories of render operations (WriteTo, Write, NewReader, UpdateReader incl. partly-read readers, WriteToFile, WriteToTempFile, Send to the reference server, failed renders by sink or producer fault); metamorphic oracle: every successful output is byte-identical to the first; producer faults also inside the caller's io.ReadSeeker behind the library's own producer; WriteToFile also onto an existing, longer file; thorough adds a native fuzz target over the rapid generator; a prefix through Read and the rest through io.Copy",
          "Generated histories against a byte-equality oracle; shapes, file sources/encodings and op sequences are sampled by rapid. Map-order dependent differences need several renders to show, so every history renders at least 4 times.",
          "Send is compared modulo what DATA does to any content (exact model of textproto's dot-writer); for S/MIME-signed histories the per-render outer boundary is masked and the signature part ignored; a transmitted copy is never the reference.",
          "DESIGN.md section 3, C11"),
  "C12": ("fault_enumeration",
-         "rapid-generated message programs x exhaustive sink-offset fault injection (every byte offset, two sink modes, first/second render, also S/MIME-signed) + producer fault injection (custom writers failing at an offset, on-disk attachment files deleted); oracle: no panic, err != nil, returned count == bytes accepted by the sink; producer faults also inside the caller's io.ReadSeeker behind the library's own producer (failing read, failing rewind) and with io.EOF-flavoured error values; batches of up to 40 producer-fault programs per case (TestC12Prod); preformatted and long generic headers in the programs; producers failing on one invocation only",
+         "rapid-generated message programs x exhaustive sink-offset fault injection (every byte offset, two sink modes, first/second render, also S/MIME-signed) + producer fault injection (custom writers failing at an offset, on-disk attachment files deleted); oracle: no panic, err != nil, returned count == bytes accepted by the sink; producer faults also inside the caller's io.ReadSeeker behind the library's own producer (failing read, failing rewind) and with io.EOF-flavoured error values; batches of up to 40 producer-fault programs per case (TestC12Prod); preformatted and long generic headers in the programs; producers failing on one invocation only; fs.FS-backed files that vanish before the render",
          "For every generated message program the check enumerates EVERY byte offset at which the destination can start failing (complete for that program) and injects producer failures; the programs themselves are sampled by rapid, so the guarantee is exhaustive per shape and statistical across shapes.",
          "Sinks obey the io.Writer contract and keep failing once they failed; shapes limited to 0..3 parts, 0..2 embeds, 0..2 attachments with contents <= 90 bytes.",
          "DESIGN.md section 3, C12"),
  "C13": ("exploration",
-         "randomised concurrent stress under the Go race detector: rapid draws goroutine counts, call mixes (Send on the shared connection, batched Send, DialAndSend on the same Client), optional SMTP AUTH against verifying servers, optional refused messages and a disconnect on the abandoning RSET, server latency jitter plans and GOMAXPROCS; oracle: per-connection transaction automaton of the reference server, token pairing of envelope and content, exactly-once commit (or clean failure where the scenario injects faults), no call hanging, and absence of race reports; big messages whose own connection is cut inside DATA while the others go on; library-generated Message-IDs with a cold-start case (the first messages of the process are rendered by concurrent DialAndSend callers)",
+         "randomised concurrent stress under the Go race detector: rapid draws goroutine counts, call mixes (Send on the shared connection, batched Send, DialAndSend on the same Client), optional SMTP AUTH against verifying servers, optional refused messages and a disconnect on the abandoning RSET, server latency jitter plans and GOMAXPROCS; oracle: per-connection transaction automaton of the reference server, token pairing of envelope and content, exactly-once commit (or clean failure where the scenario injects faults), no call hanging, and absence of race reports; big messages whose own connection is cut inside DATA while the others go on; library-generated Message-IDs with a cold-start case (the first messages of the process are rendered by concurrent DialAndSend callers); overlapping first dials with STARTTLS and a caller-supplied tls.Config",
          "Exploration only: the harness does not control the Go scheduler; schedules are varied indirectly and the race detector sees only the executions that happen. Removing the lock that serialises Send is caught reliably; a window of a few instructions may be missed.",
          "-race build; in-memory transport; every race report counts as a violation (the detector has no false positives).",
          "DESIGN.md sections 3 (C13) and 6"),
  "C14": ("exploration",
-         "differential testing of the client's SASL exchanges against independent reference verifiers written from the RFCs (PLAIN, LOGIN, CRAM-MD5, XOAUTH2, SCRAM-SHA-1/-256(-PLUS) with own PBKDF2 and the server's own channel-binding data), over rapid-generated credentials, wrong-credential twins, hand-verified normalisation pairs, salts, iteration counts, nonce suffixes, TLS 1.2/1.3, retries of one Auth value for every mechanism (SCRAM also against another salt) and a preparatory exchange with a since-rotated password; credentials changed through SetUsername/SetPassword between two dials of one Client",
+         "differential testing of the client's SASL exchanges against independent reference verifiers written from the RFCs (PLAIN, LOGIN, CRAM-MD5, XOAUTH2, SCRAM-SHA-1/-256(-PLUS) with own PBKDF2 and the server's own channel-binding data), over rapid-generated credentials, wrong-credential twins, hand-verified normalisation pairs, salts, iteration counts, nonce suffixes, TLS 1.2/1.3, retries of one Auth value for every mechanism (SCRAM also against another salt) and a preparatory exchange with a since-rotated password; credentials changed through SetUsername/SetPassword between two dials of one Client; with debug logging on",
          "Generated-input search with reference implementations as oracle (validated on the RFC 5802, 7677 and 6070 test vectors); sampled.",
          "Unicode credentials are restricted to fixed points of SASLprep and PRECIS (no independent normaliser offline); NUL (and ^A for XOAUTH2) are not generated; SCRAM's local refusal of PRECIS-forbidden strings is a permitted outcome.",
          "DESIGN.md section 3, C14"),
@@ -83,12 +83,12 @@ CLAIMED = {
          "Fixed credentials and PBKDF2 iteration count 4; the alphabet is finite and chosen by the harness; the bare-235 acceptance is a recorded known finding (scram-bare-235), excluded by signature and counted.",
          "DESIGN.md section 3, C15"),
  "C16": ("exploration",
-         "rapid-generated mechanisms x random secrets x server scripts (success, 535 / malformed challenge / disconnect at each exchange step, extra challenge) x logger kinds, through mail.Client and through the exported smtp.Client API (Auth with or without a prior Hello, optionally with Close() or SetDebugLog(true) happening between two steps), incl. scripts in which the write of the secret-bearing line fails; oracle: search of every captured log record for the secret in raw/hex/base64(3 alignments) form and for the secret-carrying SASL response lines the reference server recorded, plus presence of the post-auth MAIL line (window closed); LOGIN servers with their own wording of the prompts, an unparsable reply inside the exchange, use of the connection after a failed exchange; another goroutine's NOOP inside the exchange",
+         "rapid-generated mechanisms x random secrets x server scripts (success, 535 / malformed challenge / disconnect at each exchange step, extra challenge) x logger kinds, through mail.Client and through the exported smtp.Client API (Auth with or without a prior Hello, optionally with Close() or SetDebugLog(true) happening between two steps), incl. scripts in which the write of the secret-bearing line fails; oracle: search of every captured log record for the secret in raw/hex/base64(3 alignments) form and for the secret-carrying SASL response lines the reference server recorded, plus presence of the post-auth MAIL line (window closed); LOGIN servers with their own wording of the prompts, an unparsable reply inside the exchange, use of the connection after a failed exchange; another goroutine's NOOP inside the exchange; secrets of up to 2400 characters",
          "Generated-input search with a leak-detection oracle driven by what the reference server actually received; sampled.",
          "Secrets are alphanumeric (so JSON escaping cannot hide them) and >= 12 characters (so needles cannot match by chance); user names and mechanism names are not treated as secrets.",
          "DESIGN.md section 3, C16"),
  "C17": ("fault_enumeration",
-         "stall-point fault injection: the reference server goes silent at every enumerated step of the dial and send dialogues (incl. TLS handshake, AUTH challenges, inside DATA content with a bounded buffer) x TLS policy x auth class x call {DialWithContext, DialAndSend, Send, Reset} x timeout, also on a connection obtained through the fallback port, with WithoutNoop, and with a caller context whose own deadline is far away; oracle: the call returns a non-nil error within max(20 x timeout, 15 s), misses must repeat twice; a retry (Send/Reset) on the same Client after the call that timed out; a stall after 30/60 quick successful messages with a tight 3 s bound (accumulating deadlines)",
+         "stall-point fault injection: the reference server goes silent at every enumerated step of the dial and send dialogues (incl. TLS handshake, AUTH challenges, inside DATA content with a bounded buffer) x TLS policy x auth class x call {DialWithContext, DialAndSend, Send, Reset} x timeout, also on a connection obtained through the fallback port, with WithoutNoop, and with a caller context whose own deadline is far away; oracle: the call returns a non-nil error within max(20 x timeout, 15 s), misses must repeat twice; a retry (Send/Reset) on the same Client after the call that timed out; a stall after 30/60 quick successful messages with a tight 3 s bound (accumulating deadlines); DialAndSend with an empty batch",
          "Complete for the enumerated stall points (one per command position per TLS mode and auth mechanism class); boundedness is observed with real clocks, not proved.",
          "Wall-clock oracle with a bound >= 20x the configured timeout and >= 15 s (crypto/tls may spend 5 s on close_notify when the peer stopped reading); in-memory transport with deadline support implemented by the harness.",
          "DESIGN.md section 3, C17"),
@@ -98,7 +98,7 @@ CLAIMED = {
          "Header lines > 78 with a folding opportunity inside MIME *part* headers (written through multipart.CreatePart) are a recorded known finding (part-header-unfolded), excluded by signature and counted; the 78 rule is enforced without exception on top-level header sections, all other rules on all sections and bodies.",
          "DESIGN.md section 3, C18"),
  "C19": ("fault_enumeration",
-         "enumeration of every failure point (each step id of the recorded fault-free dialogue x {4yz, 5yz, drop, garbage}, missing STARTTLS/AUTH, foreign mechanisms, untrusted certificate) across TLS policies x auth types x DialWithContext/DialAndSend, plus rapid multi-fault scripts, plus the same failure points over real TCP with the default dialers; oracle: Close was called on the tracking net.Conn handed out through WithDialContextFunc (TCP: server-side end of connection within 2 s); handshakes that fail after a successful TCP connect (default dialers); the caller's context cancelled while the dial dialogue is in flight",
+         "enumeration of every failure point (each step id of the recorded fault-free dialogue x {4yz, 5yz, drop, garbage}, missing STARTTLS/AUTH, foreign mechanisms, untrusted certificate) across TLS policies x auth types x DialWithContext/DialAndSend, plus rapid multi-fault scripts, plus the same failure points over real TCP with the default dialers; oracle: Close was called on the tracking net.Conn handed out through WithDialContextFunc (TCP: server-side end of connection within 2 s); handshakes that fail after a successful TCP connect (default dialers); the caller's context cancelled while the dial dialogue is in flight; transports without deadline support; HELO names refused locally after the connection was opened",
          "The enumerated space (policy x auth x capability variant x call x step x outcome) is covered completely in thorough (garbage replies only at greet/starttls in quick); multi-fault scripts are sampled.",
          "Primary oracle: Close on in-memory tracking connections injected through WithDialContextFunc. Secondary oracle (213 cases): real TCP with the default dialers incl. implicit TLS, the reference server must see the connection end within 2 s of the return, GC switched off.",
          "DESIGN.md section 3, C19"),
